@@ -254,12 +254,13 @@ POOL_ENTRIES = [
     E("BatchBALD", "BatchBALD", {}, ("ensemble", "pwc_list"), sw="row0",
       arb_idx=True),
     E("Quire", "Quire", {"classes": "$classes"}, None, feat=False, sw="full",
-      weight=0.7, alt=[{"metric_dict": {"gamma": 0.5}, "lmbda": 0.5}]),
+      weight=0.7, alt=[{"metric_dict": {"gamma": 0.5}, "lmbda": 0.5},
+                       {"metric": "precomputed"}]),
     E("FourDs", "FourDs", {}, ("clf", "mmc"), sw=None, min_n=4, weight=0.5),
     E("CostEmbeddingAL", "CostEmbeddingAL", {"classes": "$classes"}, None,
       sw="r", max_n=9, weight=0.15,
       alt=[{"cost_matrix": "$cost", "mds_params": {"max_iter": 30},
-            "nn_params": {"n_neighbors": 1}}]),
+            "nn_params": {"algorithm": "brute"}}]),
     E("DiscriminativeAL[greedy]", "DiscriminativeAL",
       {"greedy_selection": True}, ("discriminator", "pwc"), task="any",
       feat=False, sw="full", arb_idx=True),
@@ -392,6 +393,13 @@ def build_data(case):
     """-> dict(X, y, classes, missing, task)"""
     ent = base_entry(case["entry"])
     X = np.array(case["X"], dtype=float)
+    ai = case.get("opts", {}).get("alt_init")
+    if ai is not None and ent["alt"] and ent["cls"] == "Quire" and \
+            ent["alt"][int(ai) % len(ent["alt"])].get("metric") \
+            == "precomputed":
+        # the caller passes the (n, n) kernel matrix instead of features
+        d2 = ((X[:, None, :] - X[None, :, :]) ** 2).sum(-1)
+        X = np.exp(-0.5 * d2)
     task = ent["task"]
     if task == "any":
         task = case.get("task", "clf")
